@@ -57,7 +57,7 @@ func init() {
 	Register(&Check{
 		ID:    "C17",
 		Level: "exploration",
-		Rule: "pairs (normal, --stub) for every vector of C01's service factor space departing from the base in <= 2 factors (quick) / <= 3 (thorough), C13's getter truth table rows, 20 literal kinds (incl. multi-line strings) x 5 positions, and 10 rejected configurations of different classes: same verdict, build constraint, identical exported view (types.Identical signatures), stub type-checks against the types-only twin universe and references type names only; " +
+		Rule: "pairs (normal, --stub) for every vector of C01's service factor space departing from the base in <= 2 factors (quick) / <= 3 (thorough), C13's getter truth table rows, 20 literal kinds (incl. multi-line strings) x 5 positions, 10 rejected configurations of different classes and 10 boundary strings (empty, blank, ...) in each of C11's grammar positions: same verdict, build constraint, identical exported view (types.Identical signatures), stub type-checks against the types-only twin universe and references type names only; " +
 			"all single departures compiled with -tags gontainerstub, constructor and every getter called (must panic), package excluded without the tag. non-trivial = accepted pair whose views were compared; distinct = distinct configuration",
 		Assumptions: []string{"the types-only twin universe declares the fixture types without any function or variable; a stub that needs more does not type-check against it"},
 		BudgetQuick: 240 * time.Second, BudgetThorough: 1200 * time.Second,
@@ -146,6 +146,21 @@ func init() {
 				mi, cfg := mi, cfg
 				id := fmt.Sprintf("many-imports/%d", mi)
 				w.Case(id, func(c *C) { pair(c, id, []File{{"c.yaml", cfg.YAML()}}, false, P(true)) })
+			}
+			// boundary strings (empty, blank, a digit, a separator) in every grammar position of C11: whatever the verdict
+			// is, it is the same in both modes
+			for _, p := range c11positions() {
+				for _, x := range []string{"", " ", "\n", "1", "a.", ".", "*", `"`, "a b", "é"} {
+					p, x := p, x
+					id := fmt.Sprintf("grammar-boundary/%s/%q", p.id, x)
+					w.Case(id, func(c *C) {
+						cfg, flags := p.embed(x)
+						if flags != nil {
+							return
+						}
+						pair(c, id, []File{{"c.yaml", cfg.YAML()}}, false, nil)
+					})
+				}
 			}
 			for _, r := range c17rejected() {
 				r := r
